@@ -151,11 +151,50 @@ def run(ctx):
                 if ref is not None and "error" not in r["runs"][0] and "error" not in ref and r["runs"][0] != ref:
                     ctx.violation(f"{sname}/{oname}: perturbed object addresses change the output: {_diff(ref, r['runs'][0])}", {"set": sname, "options": opts})
         ctx.extra["generations"] = n
+        graph_generations(ctx, work, graphs)
         cli_routes(ctx, work, sets)
     finally:
         import shutil
 
         shutil.rmtree(work, ignore_errors=True)
+
+
+def graph_generations(ctx, work, graphs3):
+    """Every TLC dependency graph as a real schema, generated with the cluster structure styles (module names
+    and class order inside a module come from sort_classes / the strongly connected components) under several
+    hash seeds: byte identity."""
+    import random
+
+    res = ctx.tlc("MC_Order", "run.cfg", workers=1,
+                  extra_files={"run.cfg": "SPECIFICATION SpecGraphs\nCONSTANTS\n  Nodes = {1, 2, 3, 4}\nCONSTRAINT NoSelfLoops\nCONSTRAINT EmitGraph\nCHECK_DEADLOCK FALSE\n"},
+                  label="Gen_Order graphs on 4 classes", tags=("GRAPH",), timeout=3000)
+    g4 = {}
+    for _t, g in res.printed:
+        edges = {str(i + 1): e for i, e in enumerate(g["edges"])} if isinstance(g["edges"], list) else g["edges"]
+        if all(int(k) not in v for k, v in edges.items()):
+            g4[json.dumps(edges, sort_keys=True)] = {"edges": edges, "big": max(len(c) for c in g["sccs"])}
+    g4 = list(g4.values())
+    rnd = random.Random(ctx.seed)
+    big = [g for g in g4 if g["big"] >= 3]
+    rest = [g for g in g4 if g["big"] < 3]
+    pick = g4 if not ctx.quick else rnd.sample(big, min(70, len(big))) + rnd.sample(rest, min(15, len(rest)))
+    pick += [g for g in graphs3 if all(int(k) not in v for k, v in g["edges"].items())][: (64 if not ctx.quick else 20)]
+    spath = os.path.join(work, "graphgen.json")
+    json.dump({"graphs": pick, "styles": ["clusters", "namespace-clusters"]}, open(spath, "w"))
+    ref = None
+    seeds = ctx.pick((0, 1, 2), (0, 1, 2, 3, 4, 5, 6, 7))
+    for seed in seeds:
+        runs = worker(["graphgen", spath], seed)["runs"]
+        for i, r in enumerate(runs):
+            ctx.case(("graphgen", json.dumps(pick[i]["edges"], sort_keys=True), seed))
+        if ref is None:
+            ref = runs
+            continue
+        for i, (a, b) in enumerate(zip(ref, runs)):
+            if a != b:
+                ctx.violation(f"dependency graph {pick[i]['edges']} (cluster style): PYTHONHASHSEED={seed} and {seeds[0]} generate different files: {_diff(a, b)}",
+                              {"graph": pick[i]["edges"], "seed": seed})
+    ctx.extra["graph_generations"] = len(pick) * len(seeds)
 
 
 def _diff(a, b):
